@@ -44,7 +44,7 @@ PROJECTS = ['p0', 'p1', 'p2']
 RELEASES = ['1', '2']
 GENERATIONS = 3
 TEMPLATE: typing.Optional[pathlib.Path] = None
-FAIL_KINDS = ['unknown-app', 'bad-content', 'bad-accept', 'missing-column', 'garbage']
+FAIL_KINDS = ['unknown-app', 'bad-content', 'bad-accept', 'missing-column', 'garbage', 'poison', 'poison']
 VBUDGET = 120.0  # virtual seconds allowed after the last arrival
 
 
@@ -91,6 +91,8 @@ def gen_cfg(seed: int, faulty: typing.Optional[bool] = None) -> dict:
                'nrows': nrows, 'vals': [rng.randint(1, 10 ** 6) for _ in range(nrows)], 'fail': None, 'delay': 0.0}
         if faulty and rng.random() < 0.2:
             req['fail'] = rng.choice(FAIL_KINDS)
+            if req['fail'] == 'poison':  # the model refuses one feature value: fails inside the worker, mid-pipeline
+                req['vals'][rng.randrange(nrows)] = serving.POISON
         if faulty and rng.random() < 0.3:
             req['delay'] = rng.choice([0.01, 0.5, 2.5, 11.0])
         requests.append(req)
@@ -244,6 +246,7 @@ EXPECTED_EXC = {  # failing request kind -> acceptable platform error classes
     'bad-accept': {'Unsupported'},
     'missing-column': {'MissingError', 'InvalidError', 'FailedError'},
     'garbage': {'FailedError'},
+    'poison': {'InvalidError'},
 }
 
 
